@@ -5,6 +5,7 @@ mod send_buffers;
 /// Verification hook: the send buffer bookkeeping, driven without a ring
 #[cfg(feature = "verif-hooks")]
 pub mod verif_hooks {
+    pub use super::recv_helper::{Error as RecvError, RecvHelper, RecvHelperV4, RecvHelperV6};
     pub use super::send_buffers::{ResponseType, SendBuffers};
 
     /// Index of the buffer the entry was prepared in, or which error came back
